@@ -302,3 +302,31 @@ func MustFlag_bounds_slice_tablelen(b []byte) []byte {
 	}
 	return b[8+l.addrLen : l.total]
 }
+
+// ---- closures folded back into their caller (xt/ssa/inline.go) ----
+
+func MustPass_bounds_slice_closurecut(b []byte) [][]byte {
+	if len(b) < 12 {
+		return nil
+	}
+	rest := b
+	next := func(n int) []byte {
+		k := rest[:n]
+		rest = rest[n:]
+		return k
+	}
+	return [][]byte{next(4), next(8)}
+}
+
+func MustFlag_bounds_slice_closurecut(b []byte) [][]byte {
+	if len(b) < 10 {
+		return nil
+	}
+	rest := b
+	next := func(n int) []byte {
+		k := rest[:n]
+		rest = rest[n:]
+		return k
+	}
+	return [][]byte{next(4), next(8)}
+}
